@@ -51,16 +51,20 @@ func (f *Subseq) Call(s *slip.Scope, args slip.List, depth int) (result slip.Obj
 	start, end, seq := f.getArgs(s, args, depth)
 	switch ta := seq.(type) {
 	case slip.List:
-		result = ta[start:end]
+		dup := make(slip.List, end-start)
+		copy(dup, ta[start:end])
+		result = dup
 	case slip.String:
 		ra := []rune(ta)
 		result = slip.String(ra[start:end])
 	case *slip.Vector:
-		elements := ta.AsList()[start:end]
+		elements := make(slip.List, end-start)
+		copy(elements, ta.AsList()[start:end])
 		result = slip.NewVector(len(elements), ta.ElementType(), nil, elements, ta.Adjustable())
 	case slip.Octets:
-		ba := []byte(ta)
-		result = slip.Octets(ba[start:end])
+		dup := make(slip.Octets, end-start)
+		copy(dup, ta[start:end])
+		result = dup
 	case *slip.BitVector:
 		cnt := end - start
 		bv := slip.BitVector{
